@@ -27,7 +27,8 @@ Proof. exact sax_refines_spec. Qed.
 Print Assumptions C09_sax_refines_spec.
 
 (* ERROR SIDE.  Where the denotation is an error (JSON kind contradicting the field at member / element / map value
-   level, string-spelled numbers, unknown member under DisallowUnknownField, non-object document), at any depth and after
+   level, string-spelled numbers, a member name that is no literal of the map's key kind or a map whose key kind the
+   converter does not support, unknown member under DisallowUnknownField, non-object document), at any depth and after
    any correct prefix, the machine fails. *)
 Theorem C09_sax_error_sound :
   forall disallow S root j junk,
@@ -197,7 +198,7 @@ Proof. vm_compute. split; reflexivity. Qed.
 Example C09_fixed_903_mapkey :
   j2p_machine false exS M (obj [("mu", obj [("3000000000", num "1")])]) = OOk [50; 8; 8; 128; 188; 193; 150; 11; 16; 1] /\
   j2p_spec false exS M (obj [("mu", obj [("3000000000", num "1")])]) = ROk [50; 8; 8; 128; 188; 193; 150; 11; 16; 1] /\
-  both (obj [("mu", obj [("abc", num "1")])]) = (RUndef, RUndef, OErr, None).
+  both (obj [("mu", obj [("abc", num "1")])]) = (RErr, RErr, OErr, None).
 Proof. vm_compute. repeat split; reflexivity. Qed.
 Example C09_fixed_904_uint64 :
   j2p_machine false exS M (obj [("u", num "18446744073709551615")]) = OOk [32; 255; 255; 255; 255; 255; 255; 255; 255; 255; 1] /\
@@ -236,6 +237,18 @@ Example C09_quirk_enum_by_name_and_base64_variants :    (* stricter: enum names,
   both (obj [("by", JStr (asc "AQI"))]) = (RUndef, RUndef, OErr, None) /\
   both (obj [("by", JStr (asc "-_-_"))]) = (RUndef, RUndef, OErr, None).
 Proof. vm_compute. repeat split; reflexivity. Qed.
+(* MAP KEY level of the error theorems: a member name that is no literal of the key kind (non-numeric, fractional, empty,
+   out of range for the key width, signed for an unsigned key) must be an error and is one *)
+Example C09_error_illegal_map_keys :
+  (forall k, In k ["abc"; "1.5"; ""; "4294967296"; "-1"; "+5"; "1e2"; " 1"] ->
+     both (obj [("mu", obj [(k, num "1")])]) = (RErr, RErr, OErr, None)) /\
+  both (obj [("a", num "1"); ("mm", obj [("k", obj [("inF", obj [("x", num "1")])])]); ("mu", obj [("7", num "1"); ("x7", num "2")])])
+  = (RErr, RErr, OErr, None).
+Proof.
+  split; [|vm_compute; reflexivity].
+  intros k Hk. cbn [In] in Hk. repeat (destruct Hk as [<-|Hk]; [vm_compute; reflexivity|]). contradiction.
+Qed.
+
 Example C09_quirk_map_key_spelling :                    (* laxer: strconv accepts leading zeros *)
   both (obj [("mu", obj [("007", num "1")])]) = (RUndef, RUndef, OOk [50; 4; 8; 7; 16; 1], Some [(6, VMap [(KInt 13 7, VScalar 5 1)])]).
 Proof. vm_compute. reflexivity. Qed.
